@@ -19,7 +19,7 @@ RULE = ('case = outcome word over {delivered+acked, uplink lost, ack lost} (ALL 
         'submission schedule, observed frame-sequence hash).')
 ASSUMPTIONS = ['peer model = nRF51 ESB safelink rules (see vf/radiosim.py)', 'each transmission costs 1 ms of virtual time',
                'null packet = header 0xFF/0xF3 with empty payload; the 3-byte ff 05 01 negotiation frame is not data']
-REQUIRED = ['mon.words_exhaustive', 'mon.random_words', 'mon.uplink_packets', 'mon.downlink_packets', 'mon.downlink_header_only_packets', 'mon.uplink_header_only_packets', 'mon.link_errors_expected',
+REQUIRED = ['mon.acknowledgements_without_payload', 'mon.words_exhaustive', 'mon.random_words', 'mon.uplink_packets', 'mon.downlink_packets', 'mon.downlink_header_only_packets', 'mon.uplink_header_only_packets', 'mon.link_errors_expected',
             'mon.negotiation_loss_cases', 'mon.no_safelink_cases', 'mon.full_stack_cases', 'mon.multi_submitter_cases',
             'mon.second_start_up_of_the_same_driver_object']
 EXHAUSTIVE = {'quick': False, 'thorough': False}
@@ -70,7 +70,7 @@ def one(ctx, word, n_up, n_down, sub_pos, down_pos, N, safelink=True, nsub=1, ss
     # (header-only uplink packets only with one submitter: they carry no id to attribute them to a submitter)
     ups = [mkpk(1000 + i, rnd, header_only_ok=(nsub == 1)) for i in range(n_up)]
     downs = [mkpk(2000 + i, rnd, header_only_ok=True) for i in range(n_down)]
-    peer = radiosim.Peer(supports_safelink=safelink, echo_garbage=garbage)
+    peer = radiosim.Peer(supports_safelink=safelink, echo_garbage=garbage, bare_idle=((sseed // 2) % 3 == 0))
     radio = radiosim.ScriptedRadio(peer, [SYM[x] if isinstance(x, int) else x for x in word])
     ob = {'errors': [], 'accepted_by_send': [], 'received': [], 'needs_resending': None, 'refused': []}
     old_N = rd._nr_of_retries
@@ -201,6 +201,7 @@ def one(ctx, word, n_up, n_down, sub_pos, down_pos, N, safelink=True, nsub=1, ss
             c = 0
     got_err = [n for (n, msg) in ob['errors'] if msg.startswith('Too many')]
     ctx.count('mon.link_errors_expected', len(exp_err))
+    ctx.count('mon.acknowledgements_without_payload', peer.bare_acks)
     if got_err != exp_err:
         V('radio:link-error-not-reported-exactly-at-the-Nth-consecutive-loss', {'expected_at_tx': exp_err[:6], 'reported_at_tx': got_err[:6]})
     other = [msg for (n, msg) in ob['errors'] if not msg.startswith('Too many')]
